@@ -59,8 +59,9 @@ type Para struct {
 
 // Table is a table (w:tbl) with Cols grid columns.
 type Table struct {
-	Cols int
-	Rows []Row
+	Cols  int
+	Rows  []Row
+	Style string // w:tblStyle (a table style id); "" = none
 }
 
 // Row is a table row (w:tr).
@@ -379,7 +380,11 @@ func (w *writer) para(p Para) {
 }
 
 func (w *writer) table(t Table) {
-	w.b.WriteString(`<w:tbl><w:tblPr><w:tblW w:w="0" w:type="auto"/></w:tblPr><w:tblGrid>`)
+	w.b.WriteString(`<w:tbl><w:tblPr>`)
+	if t.Style != "" {
+		w.f(`<w:tblStyle w:val="%s"/>`, esc(t.Style))
+	}
+	w.b.WriteString(`<w:tblW w:w="0" w:type="auto"/></w:tblPr><w:tblGrid>`)
 	for i := 0; i < t.Cols; i++ {
 		w.b.WriteString(`<w:gridCol w:w="2000"/>`)
 	}
